@@ -329,6 +329,26 @@ func genProto(r *rand.Rand, id int) PCase {
 			}
 		}
 		f := []string{genField(r), genField(r), genField(r), genField(r)}
+		if r.Intn(4) == 0 {
+			// a label name twice: two tags of one name, or a tag named like one of the fields (agents send service / host both ways);
+			// the stored document then has two members of that name
+			c.Class = "datadog_logs repeated name"
+			v1, v2 := "v"+strconv.Itoa(r.Intn(3)), "v"+strconv.Itoa(r.Intn(3))
+			switch r.Intn(4) {
+			case 0:
+				pieces = append(pieces, "env:"+v1, "env:"+v2)
+			case 1:
+				pieces = append(pieces, "service:"+v1)
+				f[1] = v2
+			case 2:
+				pieces = append(pieces, "hostname:"+v1)
+				f[2] = v2
+			default:
+				pieces = append(pieces, "ddsource:"+v1, "env:"+v2, "env:"+v1)
+				f[0] = v2
+			}
+			r.Shuffle(len(pieces), func(i, j int) { pieces[i], pieces[j] = pieces[j], pieces[i] })
+		}
 		c.Wire = Wire{Kind: "dd_logs", DdTags: hexs(strings.Join(pieces, ",")), Fields: []string{hexs(f[0]), hexs(f[1]), hexs(f[2]), hexs(f[3])}}
 	case 1:
 		c.Class = "datadog_cf"
